@@ -3246,3 +3246,18 @@ for _P, _R in (("C16", "R16.4"), ("C08", "R8.9")):
       "    dt = datetime.fromisoformat(iso_timestamp.rstrip(\"Z\")).replace(\n        tzinfo=timezone.utc\n    )\n    # Convert the whole seconds of the datetime object to a Unix timestamp\n    unix_timestamp = int(dt.replace(microsecond=0).timestamp())\n",
       "    global _LAST_TEXT, _LAST_SECONDS\n    second_text = iso_timestamp.partition(\".\")[0]\n    changed = second_text != _LAST_TEXT\n    _LAST_TEXT = second_text\n    dt = datetime.fromisoformat(iso_timestamp.rstrip(\"Z\")).replace(\n        tzinfo=timezone.utc\n    )\n    if changed:\n        _LAST_SECONDS = int(dt.replace(microsecond=0).timestamp())\n    unix_timestamp = _LAST_SECONDS\n",
       _R, "the remembered key is stored before the parse that can raise, the remembered seconds after it (seed C16-z)")
+
+# ---- D11: the break filter resized the set it iterated ------------------------
+for _P, _R in (("C07", "R7.16"), ("C05", "R5.20")):
+    M(_P, "d11-revert-iterate-live-set", CUG,
+      "    for break_event in list(loop.break_events):\n",
+      "    for break_event in loop.break_events:\n",
+      _R, "the set of break events is iterated while it is resized (D11 shape)")
+    M(_P, "d11-revert-drop-without-replacement", CUG,
+      "            if dummy_break_event in loop.break_events:\n                loop.break_events.remove(break_event)\n",
+      "            loop.break_events.remove(break_event)\n",
+      _R, "a break event that got no dummy break is dropped (D11 shape)")
+    T(_P, "twin-break-snapshot-tuple", CUG,
+      "    for break_event in list(loop.break_events):\n",
+      "    for break_event in tuple(loop.break_events):\n",
+      "another spelling of the snapshot")
